@@ -656,9 +656,10 @@ def _explicit_try(n):
 # constructs the rules look at.  On the pinned tree no function qualifies: the pass is the identity there.
 ANCHOR_PREFIXES = (
     "parser::parse", "parser::parse_expr", "parser::parse_led", "parser::parse_nud", "parser::parse_mapping", "parser::parse_identifier",
-    "parser::Expression::", "parser::MatchType::", "tokeniser::", "optimiser::coalesce", "optimiser::shake", "optimiser::shake_0", "optimiser::shake_1",
+    "parser::Expression::", "parser::MatchType::", "tokeniser::match_ahead", "tokeniser::consume_while", "tokeniser::Token::", "optimiser::coalesce", "optimiser::shake", "optimiser::shake_0", "optimiser::shake_1",
     "optimiser::rewrite", "optimiser::rewrite_search", "optimiser::matrix", "solver::solve", "solver::solve_expression", "solver::match_all",
-    "solver::match_of", "solver::search", "solver::slow_aho", "rule::Rule::", "value::Object::", "value::Value::", "error::", "core::solve", "core::solve_expression",
+    "solver::match_of", "solver::search", "solver::slow_aho", "rule::Rule::load", "rule::Rule::from_str", "rule::Rule::from_value", "rule::Rule::optimise", "rule::Rule::matches", "rule::Rule::validate",
+    "value::Object::", "value::Value::", "error::", "core::solve", "core::solve_expression",
 )
 ANCHOR_EXACT = set(ANCHOR_PREFIXES)
 HELPER_MAX_NODES = 2500
@@ -1014,6 +1015,79 @@ def _normalise(n, F, depth, tail=False, under_try=False):
                                        "init": {"k": "Call", "ty": out["ty"], "sp": out["sp"], "fn": "std::vec::Vec::<T>::new", "local": False, "gen": [], "hir_call": True, "args": []}, "else": None},
                                       {"k": "Expr", "e": loop}],
                             "expr": outv, "collected": True}
+    # (2b) short-circuiting adaptors with a closure are the flag loops they stand for
+    if k == "Call" and (out.get("fn") or "").endswith(("Iterator::any", "Iterator::all")) and len(out["args"]) == 2 and peel(out["args"][1]).get("k") == "Closure":
+        clo = F.fns.get(peel(out["args"][1])["def"])
+        ps = [p for p in clo.thir["params"] if p.get("pat") is not None] if clo is not None and clo.thir is not None else []
+        cbody = _unreturn(clo.raw_body) if ps else None
+        is_any = (out.get("fn") or "").endswith("Iterator::any")
+        _inline_counter[0] += 1
+        fid = 1000000 * _inline_counter[0] + 999998
+        flag = {"k": "Var", "ty": "bool", "sp": out["sp"], "name": "found" if is_any else "all", "id": fid}
+        if cbody is not None:
+            # a literal `return false` / `return true` left in the closure decides this element: it is `continue` or "set the flag and stop"
+            def _ret(n_):
+                if isinstance(n_, list):
+                    return [_ret(x) for x in n_]
+                if not isinstance(n_, dict):
+                    return n_
+                if n_.get("k") == "Closure":
+                    return n_
+                if n_.get("k") == "Return" and lit(n_.get("value")) in (("bool", True), ("bool", False)):
+                    v_ = lit(n_["value"])[1]
+                    if v_ != is_any:
+                        return {"k": "Continue", "ty": "!", "sp": n_.get("sp")}
+                    st_ = {"k": "Assign", "ty": "()", "sp": n_.get("sp"), "lhs": flag, "rhs": {"k": "Lit", "ty": "bool", "sp": n_.get("sp"), "v": "bool:true" if is_any else "bool:false"}}
+                    return {"k": "Block", "ty": "!", "sp": n_.get("sp"), "unsafe": False, "stmts": [{"k": "Expr", "e": st_}, {"k": "Expr", "e": {"k": "Break", "ty": "!", "sp": n_.get("sp"), "value": None}}], "expr": None}
+                return {kk: (vv if kk == "pat" else _ret(vv)) for kk, vv in n_.items()}
+            cbody = _ret(cbody)
+        if len(ps) == 1 and not any(x.get("k") in ("Return", "Try") for x in walk(cbody)):
+            body = _normalise(cbody, F, depth + 1)
+            cond = body if is_any else {"k": "Unary", "ty": "bool", "sp": out["sp"], "op": "Not", "arg": body}
+            setf = {"k": "Assign", "ty": "()", "sp": out["sp"], "lhs": flag, "rhs": {"k": "Lit", "ty": "bool", "sp": out["sp"], "v": "bool:true" if is_any else "bool:false"}}
+            brk = {"k": "Break", "ty": "!", "sp": out["sp"], "value": None}
+            then = {"k": "Block", "ty": "()", "sp": out["sp"], "unsafe": False, "stmts": [{"k": "Expr", "e": setf}, {"k": "Expr", "e": brk}], "expr": None}
+            iff = {"k": "If", "ty": "()", "sp": out["sp"], "cond": cond, "then": then, "else": None}
+            loop = {"k": "For", "ty": "()", "sp": out["sp"], "pat": ps[0]["pat"], "iter": out["args"][0], "body": {"k": "Block", "ty": "()", "sp": out["sp"], "unsafe": False, "stmts": [], "expr": iff}, "adaptor": "any" if is_any else "all"}
+            return {"k": "Block", "ty": "bool", "sp": out["sp"], "unsafe": False,
+                    "stmts": [{"k": "Let", "sp": out["sp"], "pat": {"k": "Bind", "ty": "bool", "name": flag["name"], "id": fid, "mode": "BindingMode(No, Mut)", "sub": None},
+                               "init": {"k": "Lit", "ty": "bool", "sp": out["sp"], "v": "bool:false" if is_any else "bool:true"}, "else": None},
+                              {"k": "Expr", "e": loop}],
+                    "expr": flag, "adaptor": "any" if is_any else "all"}
+    # (2c) `opt.is_some_and(|x| body)` is `match opt { Some(x) => body, None => false }`
+    if k == "Call" and (out.get("fn") or "").endswith(("Option::<T>::is_some_and", "Option::<T>::is_none_or")) and len(out["args"]) == 2 and peel(out["args"][1]).get("k") == "Closure":
+        clo = F.fns.get(peel(out["args"][1])["def"])
+        ps = [p for p in clo.thir["params"] if p.get("pat") is not None] if clo is not None and clo.thir is not None else []
+        cbody = _unreturn(clo.raw_body) if ps else None
+        if len(ps) == 1 and not any(x.get("k") in ("Return", "Try") for x in walk(cbody)):
+            other = out["fn"].endswith("is_none_or")
+            some_pat = {"k": "Variant", "adt": "std::option::Option", "variant": "Some", "nfields": 1, "ty": str(out["args"][0].get("ty")), "sub": [{"f": "0", "i": 0, "p": ps[0]["pat"]}]}
+            none_pat = {"k": "Variant", "adt": "std::option::Option", "variant": "None", "nfields": 0, "ty": str(out["args"][0].get("ty")), "sub": []}
+            return {"k": "Match", "ty": "bool", "sp": out["sp"], "scrut": out["args"][0], "src": "adaptor",
+                    "arms": [{"pat": some_pat, "guard": None, "body": _normalise(cbody, F, depth + 1), "sp": out["sp"]},
+                             {"pat": none_pat, "guard": None, "body": {"k": "Lit", "ty": "bool", "sp": out["sp"], "v": "bool:true" if other else "bool:false"}, "sp": out["sp"]}]}
+    # (2d) `iter.filter(|x| p).count()` is the counting loop
+    if k == "Call" and (out.get("fn") or "").endswith("Iterator::count") and out["args"] and call_is(peel(out["args"][0]), "Iterator::filter") and peel(peel(out["args"][0])["args"][1]).get("k") == "Closure":
+        fl = peel(out["args"][0])
+        clo = F.fns.get(peel(fl["args"][1])["def"])
+        ps = [p for p in clo.thir["params"] if p.get("pat") is not None] if clo is not None and clo.thir is not None else []
+        cbody = _unreturn(clo.raw_body) if ps else None
+        if len(ps) == 1 and not any(x.get("k") in ("Return", "Try") for x in walk(cbody)):
+            _inline_counter[0] += 1
+            nid = 1000000 * _inline_counter[0] + 999997
+            xid = nid - 1
+            cnt = {"k": "Var", "ty": "usize", "sp": out["sp"], "name": "count", "id": nid}
+            xv = {"k": "Var", "ty": "?", "sp": out["sp"], "name": "item", "id": xid}
+            inc = {"k": "AssignOp", "ty": "()", "sp": out["sp"], "op": "AddAssign", "lhs": cnt, "rhs": {"k": "Lit", "ty": "usize", "sp": out["sp"], "v": "i:1"}}
+            iff = {"k": "If", "ty": "()", "sp": out["sp"], "cond": _normalise(cbody, F, depth + 1), "then": {"k": "Block", "ty": "()", "sp": out["sp"], "unsafe": False, "stmts": [{"k": "Expr", "e": inc}], "expr": None}, "else": None}
+            bind = {"k": "Let", "sp": out["sp"], "pat": ps[0]["pat"], "init": {"k": "Borrow", "ty": "?", "sp": out["sp"], "mut": False, "arg": xv}, "else": None}
+            loop = {"k": "For", "ty": "()", "sp": out["sp"], "pat": {"k": "Bind", "ty": "?", "name": "item", "id": xid, "mode": "BindingMode(No, Not)", "sub": None}, "iter": fl["args"][0],
+                    "body": {"k": "Block", "ty": "()", "sp": out["sp"], "unsafe": False, "stmts": [bind, {"k": "Expr", "e": iff}], "expr": None}, "adaptor": "filter-count"}
+            return {"k": "Block", "ty": "usize", "sp": out["sp"], "unsafe": False,
+                    "stmts": [{"k": "Let", "sp": out["sp"], "pat": {"k": "Bind", "ty": "usize", "name": "count", "id": nid, "mode": "BindingMode(No, Mut)", "sub": None},
+                               "init": {"k": "Lit", "ty": "usize", "sp": out["sp"], "v": "i:0"}, "else": None},
+                              {"k": "Expr", "e": loop}],
+                    "expr": cnt, "adaptor": "filter-count"}
     # (3) `v.extend(iter.map(closure))` on a Vec is the loop `for p in iter { v.push(closure body) }`
     if k == "Call" and (out.get("fn") or "").endswith("Extend::extend") and len(out["args"]) == 2 and "std::vec::Vec<" in str(out["args"][0].get("ty")):
         m = peel(out["args"][1])
